@@ -219,6 +219,11 @@ class ClosureEval:
         for st in f.body:
             if isinstance(st, ast.Assign) and len(st.targets) == 1 and isinstance(st.targets[0], ast.Name):
                 sub.env[st.targets[0].id] = sub.ev(st.value)
+            elif isinstance(st, ast.Assign) and len(st.targets) == 1 and isinstance(st.targets[0], ast.Tuple) and isinstance(st.value, ast.Tuple) and \
+                    len(st.targets[0].elts) == len(st.value.elts) and all(isinstance(t, ast.Name) for t in st.targets[0].elts):
+                vals = [sub.ev(v) for v in st.value.elts]
+                for t, v in zip(st.targets[0].elts, vals):
+                    sub.env[t.id] = v
             elif isinstance(st, ast.Return):
                 return sub.ev(st.value)
             elif isinstance(st, ast.Expr) and isinstance(st.value, ast.Constant):
@@ -284,6 +289,15 @@ class ClosureEval:
             if f in self.helpers:
                 return self.call_callable(self.helpers[f], args)
             raise Unsupported("call %s" % f)
+        if isinstance(n, ast.IfExp):
+            t = self.ev(n.test)
+            if isinstance(t, Tup):
+                L = t.seq.simplify(self.facts).length
+                if self.facts.zero(L):
+                    return self.ev(n.orelse)
+                if self.facts.nonneg(L - 1):
+                    return self.ev(n.body)
+            raise Unsupported("test %s is not decided" % ast.unparse(n.test))
         if isinstance(n, ast.Subscript) and isinstance(n.slice, ast.Slice) and n.slice.step is None:
             v = self.ev(n.value)
             if isinstance(v, Raw):
@@ -399,16 +413,25 @@ def check_function_algebra(ctx):
         ctx.ob("R19.1", q + ":type", dom == want_dom and cod == want_cod, found="%r -> %r" % (dom, cod), required="%r -> %r" % (want_dom, want_cod), mod=CART, node=ctor, sig=meth + "-type")
         try:
             f = callable_of(fn, ctor.args[2])
-            ev = ClosureEval(dict(env, __outer__=local, **callees), Facts(), {k: callable_of(fn, ast.Name(id=k)) for k in [s.name for s in fn.body if isinstance(s, ast.FunctionDef)]})
-            try:
-                res = ev.call_callable(f, [(True, Tup(inp))])
-                bad = None
-                if not isinstance(res, Raw):
-                    bad = "the closure returns %r, a tuple even when there is a single output (callers expect the single value)" % (res,)
-                elif not res.seq.same(out, Facts()):
-                    bad = "the closure returns %r" % (res,)
-            except Problem as e:
-                bad = str(e)
+            bad = None
+            doms = [a.parts[0].atom.length for a in ([SD, OD] if meth != "id" else [D])]
+            import itertools as _it
+            for signs in _it.product((0, 1), repeat=len(doms)):          # each domain empty / non-empty: tests on emptiness of argument tuples are decided per case
+                facts = Facts()
+                for ln, sg in zip(doms, signs):
+                    facts = facts.with_eq(ln, 0) if sg == 0 else facts.extend(ln - 1)
+                ev = ClosureEval(dict(env, __outer__=local, **callees), facts, {k: callable_of(fn, ast.Name(id=k)) for k in [s.name for s in fn.body if isinstance(s, ast.FunctionDef)]})
+                case = ", ".join("%r %s" % (ln, "= 0" if sg == 0 else ">= 1") for ln, sg in zip(doms, signs))
+                try:
+                    res = ev.call_callable(f, [(True, Tup(inp))])
+                    if not isinstance(res, Raw):
+                        bad = "the closure returns %r, a tuple even when there is a single output (callers expect the single value)" % (res,)
+                    elif not res.seq.same(out, facts):
+                        bad = "when %s the closure returns %r" % (case, res)
+                except Problem as e:
+                    bad = str(e)
+                if bad:
+                    break
             ctx.ob("R19.1", q + ":closure", bad is None, found=bad or "returns result(%r) for inputs %r" % (out, inp), required="inputs %r are fed to the callees on their own wires, outputs %r in order, in the "
                    "tuple-or-single-value convention" % (inp, out), mod=CART, node=ctor, sig=meth + "-closure")
         except Unsupported as e:
